@@ -8,11 +8,13 @@ from multiprocessing import Pool
 from harness import common as C
 
 PROP = "C15"
-# 1: /repo contains the three fix: commits (has_same_tags by identity; non-operand tokens rejected; RecursionError ->
-#    ValueError): the model runs with fixed=true and the oracle demands the full statement, no known class accepted.
-# 0: the code before them: model with fixed=false, the classes C15-F1..F3 are recognised (if listed in known_findings).
+# 1 (default, matches /repo): fix commits 81fa420 (has_same_tags by identity), 1bd4096 (non-operand tokens rejected) and
+#    0643166 (RecursionError -> ValueError) are in /repo: the model runs with fixed=true and the oracle demands the full
+#    statement, no known class accepted.
+# 0: the behaviour before them: model with fixed=false, the classes C15-F1..F3 are recognised (if listed in known_findings).
 FIXED = int(os.environ.get("VERIF_C15_FIXED", "1"))
-# 1: /repo contains fix-F4 (the short_base_tag setter refreshes tag_terms).  0: it does not: after expand_defs() a
+# 1 (default, matches /repo): fix commit c19994c is in /repo (the short_base_tag setter refreshes tag_terms).
+# 0: the behaviour before it: after expand_defs() a
 #    Def-expand tag still carries the schema path of Def; the model is given these stale terms (it models the code that
 #    exists) and the oracle accepts exactly that class as C15-F4 (while it is listed in known_findings.json).
 FIXED_F4 = int(os.environ.get("VERIF_C15_FIXED_F4", "1"))   # fix commit c19994c is in /repo
@@ -32,7 +34,9 @@ TRUSTED = [
     "by running the model on (parsed base annotation + the same edit history) against the implementation object. "
     "HedGroup.remove, expand_defs, shrink_defs, replace_placeholder, sorted/sort, copy, _contents and "
     "from_hed_strings are not modelled: for those the model (and the oracle) is given the content the object prints",
-    "Python's actual recursion limit is not modelled: the model takes the available nesting depth as a parameter "
+    "Python's actual recursion limit is not modelled: the model takes the available nesting depth as a parameter; "
+    "an exhausted depth is RecursionError in the model (compile_raw), turned into ValueError by compile like commit "
+    "0643166 does; proved: one level per token is always enough and more depth never changes an answer; "
     "(theorems hold for every depth); generated query nesting stays below 60 levels, and the compile outcome of "
     "corpus entries nested 200+ levels is checked by the oracle only (ok or ValueError), not compared with the model",
 ]
@@ -42,12 +46,15 @@ ASSUMPTIONS = [
     "form = text); nesting depth <= 4; query depth <= 4",
     "the independent set-semantics evaluator, the metamorphic laws, repeated-search / purity / batch-interface "
     "checks and 'a built or edited annotation answers like the same annotation parsed from its own text' run on the "
+    "implementation only -- C15_search_ignores_history / C15_search_same_content hold by construction of the model "
+    "(obj_search reads the content tree only) and carry no evidence by themselves; they run on the "
     "implementation only (testing); 70% of the random cases build the annotation through the API",
     "removals with an equal EARLIER sibling are not generated: HedGroup.remove (list.remove, by equality) takes the "
     "earlier one out and orphans the requested one -- an editing defect outside this property",
     "C15_sibling_order_invariant / _search assume the group identities of the annotation are pairwise different "
     "(object identity; the harness numbers nodes in pre-order)",
-    "the *_prefix_* theorems are the record of the code before the fix: commits (fixed=false): refuted sibling "
+    "the *_prefix_* theorems are the record of the behaviour before fix commits 81fa420 / 1bd4096 / 0643166 / c19994c "
+    "(fixed=false; /repo and the harness defaults are the repaired code): refuted sibling "
     "order and unbalanced-accepted witnesses, associativity under the no-equal-groups hypothesis",
 ]
 
@@ -138,7 +145,7 @@ def schema_paths():
 
 def tag_info(text, stale=False):
     """(terms, short_tag, org_tag) of an annotation tag, from the harness' own table.
-    stale: the tag_terms hed-python keeps after expand_defs() without fix-F4 (a Def-expand tag with Def's path)."""
+    stale: the tag_terms hed-python kept after expand_defs() before fix commit c19994c (a Def-expand tag with Def's path)."""
     node, val = FORMS[text]
     if stale and node == "Def-expand":
         return [p.casefold() for p in schema_paths()["Def"]], node + "/" + val, text
@@ -893,7 +900,7 @@ def f1_class(case, name):
 
 
 def stale_route(case):
-    """The object was built by expand_defs() (not shrunk back) and /repo lacks fix-F4."""
+    """The object was built by expand_defs() (not shrunk back) and the tree under test lacks fix commit c19994c."""
     rt = case.get("route") or {}
     return (not FIXED_F4) and rt.get("kind") == "expand" and not rt.get("shrink")
 
@@ -1005,7 +1012,7 @@ def run(tier, seed, res, model_ok=True, proof_ok=True):
     rng = random.Random(seed)
     schema_paths()
     quick = tier == "quick"
-    n_cases = 1500 if quick else 25000
+    n_cases = 1300 if quick else 25000
     n_soup = 5000 if quick else 50000
     if not proof_ok:
         n_cases *= 2
